@@ -687,7 +687,9 @@ pub fn parse_type<'t>(ctx: Context<'t>) -> ParseResult<'t, Type> {
                 'outer: loop {
                     match ctx.tokens_lookahead::<2>() {
                         [T::Identifier(ident), T::Colon] => {
-                            ctx = ctx.skip(2);
+                            // Step the way the lookahead did: `skip(2)` counts a newline as a token, the
+                            // lookahead (inside brackets) has skipped it.
+                            ctx = ctx.skip(1).skip(1);
                             let mut constraint_list = Vec::new();
                             loop {
                                 let (inner_ctx, constraint) = parse_type_constraint(ctx)?;
